@@ -22,15 +22,15 @@ type GEntry struct {
 }
 
 type GRecord struct {
-	Y, M, D  int
-	Dashes   bool
-	DateText string
-	Should   int
+	Y, M, D   int
+	Dashes    bool
+	DateText  string
+	Should    int
 	HasShould bool
-	Summary  []string
-	Entries  []GEntry
-	Indent   string
-	HasOpen  bool
+	Summary   []string
+	Entries   []GEntry
+	Indent    string
+	HasOpen   bool
 }
 
 type GDoc struct {
@@ -253,8 +253,8 @@ type DocOpts struct {
 	AllowCR     bool
 	CleanText   bool // summaries without exotic bytes
 	SortedDates bool
-	Window      int     // if > 0: all dates within Window days after Base
-	Base        [3]int  // base date for Window
+	Window      int    // if > 0: all dates within Window days after Base
+	Base        [3]int // base date for Window
 }
 
 func genEntry(r *Rand, rec *GRecord, o DocOpts) (GEntry, string, []string) {
